@@ -388,7 +388,7 @@ def prop_c04bec2(k, bs, cs, es, ephs, what, stride, offset):
     encs = parse_encs(es)
 
     def read(t):
-        return Bec2File.read_file(io.StringIO(t), encs, True)
+        return Bec2File.read_file(io.StringIO(t), encs)          # the MAC check is the default
 
     def known(f):
         return [show_block(b) for b in f.auth_blocks.values() if not isinstance(b, UnknownAuthBlock)]
